@@ -458,6 +458,40 @@ async fn run_server(enabled: bool, names: &[String], acc: &mut Acc, thorough: bo
         }
     }
 
+    // phase G: the public reads that WAIT for a block under construction to close (they give up after five
+    // seconds), sent without credentials while the indexer has a block open: the open block is state too,
+    // the indexer's next brc20_finaliseBlock must find its transaction still there
+    {
+        s.reset().await?;
+        let mut dp = params_for("brc20_deposit", &s.ctx);
+        if let Some(a) = dp.as_array_mut() { a[5] = json!(0); a[6] = json!("verif_open_block_i0"); }
+        let opened = s.authed_call("brc20_deposit", &dp).await?;
+        if opened.get("result").is_some() {
+            s.dirty = true;
+            let heavy = ["eth_call", "eth_estimateGas", "brc20_balance", "eth_callMany", "eth_estimateGasMany"];
+            let t0 = std::time::Instant::now();
+            let mut futs = Vec::new();
+            for (i, m) in heavy.iter().enumerate() {
+                let body = rpcx::request_json(Some(900 + i as u64), m, &params_for(m, &s.ctx)).to_string();
+                let a = addr.clone();
+                futs.push(tokio::spawn(async move { let mut h = Http::new(&a); h.post(&[], body.as_bytes()).await.map(|r| r.status).unwrap_or(0) }));
+            }
+            let mut statuses = Vec::new();
+            for f in futs { statuses.push(f.await.unwrap_or(0)); }
+            let waited = t0.elapsed().as_millis() as u64;
+            let fin = s.authed_call("brc20_finaliseBlock", &json!([rpcx::TS, rpcx::ZERO32, 1])).await?;
+            *acc.by_shape.entry("open_block/waiting_reads_without_credentials".into()).or_default() += heavy.len() as u64;
+            if fin.get("result").is_none() {
+                acc.failures.push(json!({"what": "unauthenticated public read requests, sent while the indexer had a block under construction, changed state: the indexer's brc20_finaliseBlock of that block (one transaction) is now refused",
+                    "case": {"auth_enabled": enabled, "requests": heavy, "http_statuses": statuses, "waited_ms": waited, "finalise_answer": fin}}));
+            }
+            s.authed_call("brc20_clearCaches", &json!([])).await?;
+            s.dirty = false;
+        } else {
+            acc.failures.push(json!({"what": "open-block scenario: the authorised brc20_deposit that should open a block was not accepted", "case": {"auth_enabled": enabled, "answer": opened}}));
+        }
+    }
+
     // phase E: the same server also speaks WebSocket; the HTTP layer sees the upgrade request
     s.reset().await?;
     ws_probe(&addr, enabled, &mine_p, acc).await;
